@@ -1346,12 +1346,12 @@ def coq_text(res):
     text = MUT_HEADER + '\nDefinition mutation_table : list mrow := [\n' + ';\n'.join(rows) + '\n].\n\n'
     text += ('(* functions the scan refuses to read (reflection): every parameter is MayMutate above *)\n'
              'Definition rejected_functions : list (string * string * Z * string) := [%s].\n\n'
-             % ';\n  '.join('(%s, %s, (%d), %s)' % (_coq_str(r['module']), _coq_str(r['qualname']), r['line'], _coq_str(r['what']))
+             % ';\n  '.join('(%s, %s, (%d)%%Z, %s)' % (_coq_str(r['module']), _coq_str(r['qualname']), r['line'], _coq_str(r['what']))
                             for r in res['rejected']))
     text += ('(* calls of function VALUES (stored components, callable parameters) that are handed an alias of a parameter: the table\n'
              '   assumes they leave it alone *)\n'
              'Definition callable_sites : list (string * string * Z * string) := [%s].\n'
-             % ';\n  '.join('(%s, %s, (%d), %s)' % (_coq_str(r['module']), _coq_str(r['qualname']), r['line'], _coq_str(r['callee']))
+             % ';\n  '.join('(%s, %s, (%d)%%Z, %s)' % (_coq_str(r['module']), _coq_str(r['qualname']), r['line'], _coq_str(r['callee']))
                             for r in res['callable_sites']))
     text += ('\n(* rows whose answer is not handed on to the callers (tools/mutscan.py NOT_PROPAGATED): each must be a justified exception *)\n'
              'Definition not_propagated : list (string * string * string) := [%s].\n'
